@@ -41,6 +41,12 @@ OPS = ["mask", "unmask", "reveal", "reveal", "reveal", "reveal", "reveal", "save
 def _case(draw):
     sc = draw(S.screen_case(min_rows=2, max_rows=14, obs=_obs, max_plates=8))
     if draw(st.integers(0, 3)) == 0:
+        # force one plate of tiny but not-all-zero values (a complete-kill plate): it must be revealable
+        p1 = sc["rows"][-1]["p"]
+        tiny = [1e-9, 5e-324, 3e-9, 0.0, 1e-12]
+        for i, r in enumerate(r for r in sc["rows"] if r["p"] == p1):
+            r["o"] = tiny[i % len(tiny)]
+    if draw(st.integers(0, 3)) == 0:
         # force one all-zero plate
         p0 = sc["rows"][0]["p"]
         for r in sc["rows"]:
